@@ -782,8 +782,11 @@ fn run_b(rep: &mut Report, a: &Args, rng: &mut Rng, w: &mut World) {
 								}
 							}
 							let recip = amount as u128 - if includes_fee { kfee as u128 } else { 0 };
+							let n_chg = outs_after.iter().filter(|o| o.tx_log_entry == Some(e.id) && o.root_key_id == e.parent_key_id && o.status == OutputStatus::Unconfirmed).count();
 							if in_total != recip + kfee as u128 + chg {
 								rep.violation("C01|late-lock-conservation", &format!("inputs {} != amount {} + fee {} + change {}", in_total, recip, kfee, chg), case());
+							} else if kfee < tx_fee(ins.len(), 1 + n_chg, 1) {
+								rep.violation("C01|late-lock-fee-below-minimum", &format!("late-locked send: fee {} below the minimum for {} inputs / {} outputs", kfee, ins.len(), 1 + n_chg), case());
 							} else {
 								rep.count("B:late-lock-built");
 								rep.distinct(&("B-latelock", ins.len(), includes_fee));
